@@ -42,12 +42,17 @@ theorem export_loads_windows (scale : α → α) (A : List (List α)) (nch : Nat
 
 /-- Store lookup: for any query (any order, any subset of stored spikes), on every query channel
 that the store holds for that spike the result is the stored window column, i.e. the raw window
-on that channel; channels the store does not hold for the spike come back as zeros. -/
+on that channel; channels the store does not hold for the spike come back as zeros.
+(Domain notes, both outside the generators: the query channels are distinct and the stored spike
+ids are distinct — with a repeated query channel or id the real lookup fills only the LAST
+occurrence, where this model fills every one; the hypotheses below make that restriction explicit
+although the proof does not need them.) -/
 theorem lookup_eq_window (st : Store α) (A : List (List α)) (samples : List Int) (n : Nat)
     (hl1 : st.spikeChannels.length = st.spikeIds.length) (hl2 : st.waveforms.length = st.spikeIds.length)
     (hstore : ∀ p, p < st.spikeIds.length →
       st.waveforms.getD p [] = window A (samples.getD p 0) n (st.spikeChannels.getD p []))
-    (query : List Nat) (hq : ∀ q ∈ query, q ∈ st.spikeIds) (chq : List Nat) :
+    (query : List Nat) (hq : ∀ q ∈ query, q ∈ st.spikeIds) (chq : List Nat)
+    (_hchq : chq.Nodup) (_hids : st.spikeIds.Nodup) :
     getSpikeWaveforms st query chq n = some (query.map fun q =>
       let p := st.spikeIds.idxOf q
       (List.range n).map fun r => chq.map fun (c : Nat) =>
